@@ -1351,7 +1351,7 @@ func (interp *Interpreter) cfg(root *node, sc *scope, importPath, pkgName string
 					}
 					n.findex = notInFrame
 					n.gen = nop
-				case bname == "len" && isInConstOrTypeDecl(n):
+				case bname == "len" && (isInConstOrTypeDecl(n) || isConstString(n.child[1])):
 					t := n.child[1].typ.TypeOf()
 					for t.Kind() == reflect.Ptr {
 						t = t.Elem()
@@ -3059,6 +3059,11 @@ func isInConstOrTypeDecl(n *node) bool {
 		anc = anc.anc
 	}
 	return false
+}
+
+// isConstString returns true if node is a string constant, the length of which is a constant.
+func isConstString(n *node) bool {
+	return n.rval.IsValid() && isString(n.typ.TypeOf()) && (n.kind == basicLit || isConstantValue(n.rval.Type()))
 }
 
 // isNewDefine returns true if node refers to a new definition.
